@@ -243,7 +243,7 @@ type op struct {
 	Path int
 	IP   int
 	Cred int
-	Mode int // 0 = secret via query parameter, 1 = via cookie
+	Mode int // opCreate: 0 = secret via query parameter, 1 = via cookie; opCDN: 0 = Bearer <the CDN secret>, 1 = "Bearer " (empty)
 	K    int // opKick: index into the sessions created so far
 }
 
@@ -254,7 +254,7 @@ func (o op) String() string {
 	case opCreate:
 		return fmt.Sprintf("Create(%s,%s,%s,%s)", pathNames[o.Path], ips[o.IP], creds[o.Cred].name, []string{"query", "cookie"}[o.Mode])
 	case opCDN:
-		return fmt.Sprintf("CDNIndex(%s)", pathNames[o.Path])
+		return fmt.Sprintf("CDNIndex(%s,%s)", pathNames[o.Path], []string{"bearer-cdn", "bearer-empty"}[o.Mode])
 	default:
 		return fmt.Sprintf("Kick(#%d)", o.K)
 	}
@@ -382,9 +382,14 @@ func (w *world) discover(path string) {
 	rf := &refFiles{files: map[string]string{}, bodies: map[string][]byte{}, playlist: "video1_stream.m3u8"}
 	// initial gap of 7 segments: the first real segment has sequence number 7
 	last := 7 + nFrames - 2
-	code, body := w.direct(path, rf.playlist, fmt.Sprintf("_HLS_msn=%d&_HLS_part=0", last))
-	if code != 200 {
-		vcommon.Harness("direct media playlist of %s: status %d", path, code)
+	// a blocking request may only run one segment ahead of the muxer (else 400): walk up to the last
+	var code int
+	var body []byte
+	for msn := 8; msn <= last; msn++ {
+		code, body = w.direct(path, rf.playlist, fmt.Sprintf("_HLS_msn=%d&_HLS_part=0", msn))
+		if code != 200 {
+			vcommon.Harness("direct media playlist of %s (msn %d): status %d", path, msn, code)
+		}
 	}
 	m := reMap.FindSubmatch(body)
 	var segs [][][]byte
@@ -500,8 +505,12 @@ func (w *world) apply(o op) {
 		}
 	case opCDN:
 		path := pathNames[o.Path]
-		code, _, _ := w.do(hreq{urlPath: "/" + path + "/index.m3u8", xff: ips[0], authz: "Bearer " + cdnSecret})
-		if code == 200 && w.cfg == 0 {
+		hdr := "Bearer " + cdnSecret
+		if o.Mode == 1 {
+			hdr = "Bearer "
+		}
+		code, _, _ := w.do(hreq{urlPath: "/" + path + "/index.m3u8", xff: ips[0], authz: hdr})
+		if code == 200 && w.cfg == 0 && o.Mode == 0 {
 			w.cdnIndex[path] = true
 		}
 	case opKick:
@@ -515,6 +524,29 @@ func (w *world) apply(o op) {
 		}
 		s.live = false
 	}
+}
+
+// deviates reports whether the session records of the real server differ from the model's live
+// sessions (used only to decide about a safe teardown, never as an oracle).
+func (w *world) deviates() bool {
+	real := map[string]bool{}
+	for _, n := range pathNames {
+		for _, rs := range hls.VerifC43Sessions(w.srv, n) {
+			if !rs.IsCDN {
+				real[rs.Secret.String()] = true
+			}
+		}
+	}
+	n := 0
+	for _, s := range w.sessions {
+		if s.live {
+			n++
+			if !real[s.secret] {
+				return true
+			}
+		}
+	}
+	return n != len(real)
 }
 
 // key is the canonical state key: configuration, the session records the real server holds
@@ -571,6 +603,7 @@ type prodStats struct {
 	refused   int
 	denied401 int
 	authDeny  int // request satisfied the statement's condition but was refused (allowed, reported)
+	classes   map[string]int
 }
 
 func clientIP(xff string) string {
@@ -669,7 +702,8 @@ func (w *world) product(thorough bool, st *prodStats) []finding {
 
 							// the statement's condition
 							cip := clientIP(xff)
-							cdnOK := w.cfg == 0 && az.val == "Bearer "+cdnSecret
+							// the scheme name is case-insensitive (RFC 9110): "bearer <secret>" still carries the secret
+							cdnOK := w.cfg == 0 && len(az.val) > 7 && strings.EqualFold(az.val[:7], "Bearer ") && az.val[7:] == cdnSecret
 							sessOK := func(p string) bool {
 								return sc.sess != nil && sc.sess.live && sc.sess.authorized && sc.sess.path == p && sc.sess.ip == cip
 							}
@@ -679,6 +713,30 @@ func (w *world) product(thorough bool, st *prodStats) []finding {
 							if sc.sess != nil {
 								desc["session"] = fmt.Sprintf("%s live=%v authorized=%v", sc.sess.how, sc.sess.live, sc.sess.authorized)
 							}
+
+							rel := sc.name
+							if sc.sess != nil {
+								switch {
+								case !sc.sess.authorized:
+									rel = "sess-unauthorized"
+								case !sc.sess.live:
+									rel = "sess-kicked"
+								case sc.sess.path != tg.path:
+									rel = "sess-other-path"
+								default:
+									rel = "sess-of-path"
+								}
+								if sc.sess.ip == cip {
+									rel += "/same-ip"
+								} else {
+									rel += "/other-ip"
+								}
+							}
+							outcome := fmt.Sprintf("%d", code)
+							if servedPath != "" {
+								outcome = "served"
+							}
+							st.classes[fmt.Sprintf("%s|%s|%s|%s|cdn=%v|%s", f.kind, rel, pl, az.name, w.cfg == 0, outcome)]++
 
 							if servedPath == "" {
 								st.refused++
@@ -738,21 +796,37 @@ type result struct {
 	anomaly  []string
 	nsess    int
 	harness  string
+	deviated bool
 }
 
 // run replays a history on a fresh server; with check=true the request product is evaluated in
 // the reached state.
-func run(h []op, check, thorough bool) result {
-	var r result
+func run(h []op, check, thorough bool) (r result) {
 	r.stats.served = map[string]int{}
+	r.stats.classes = map[string]int{}
 	w := newWorld(h[0].Cfg)
-	defer w.close()
+	defer func() {
+		// a server whose records deviate from the model (e.g. a kicked session still registered) may
+		// crash the process while shutting down (double close of the session's reader); it is leaked
+		// instead so that the findings of this run are still reported
+		if w.deviates() || len(r.findings) > 0 {
+			w.tr.CloseIdleConnections()
+			return
+		}
+		w.close()
+	}()
 	for _, o := range h[1:] {
 		w.apply(o)
 	}
 	r.key = w.key()
 	r.nsess = len(w.sessions)
 	r.anomaly = w.anomaly
+	if !check && w.deviates() {
+		// the server's records already contradict the model: judge this state right away (the leaked
+		// server must not live long, see above) so that main can report and stop
+		check = true
+		r.deviated = true
+	}
 	if check {
 		r.findings = w.product(thorough, &r.stats)
 		// the product must not have changed the state
@@ -773,7 +847,7 @@ func successors(h []op, nsess int, live []bool, credSet []int) []op {
 				}
 			}
 		}
-		out = append(out, op{Kind: opCDN, Path: p})
+		out = append(out, op{Kind: opCDN, Path: p, Mode: 0}, op{Kind: opCDN, Path: p, Mode: 1})
 	}
 	for k := 0; k < nsess; k++ {
 		if live[k] {
@@ -795,6 +869,13 @@ func main() {
 	thorough := r.Thorough()
 
 	if *probe {
+		for i := 0; i < 5; i++ {
+			t := time.Now()
+			w0 := newWorld(0)
+			t1 := time.Since(t)
+			w0.close()
+			fmt.Printf("world: create %v close %v\n", t1, time.Since(t)-t1)
+		}
 		w := newWorld(0)
 		for _, n := range pathNames {
 			fmt.Printf("%s: %+v\n", n, w.ref[n].files)
@@ -806,6 +887,7 @@ func main() {
 		fmt.Println(w.key(), w.anomaly)
 		var st prodStats
 		st.served = map[string]int{}
+		st.classes = map[string]int{}
 		t := time.Now()
 		f := w.product(thorough, &st)
 		fmt.Printf("%d findings, %+v in %v\n", len(f), st, time.Since(t))
@@ -817,10 +899,10 @@ func main() {
 	for i := 0; i < *ncreds && i < len(creds); i++ {
 		credSet = append(credSet, i)
 	}
-	r.Rule = fmt.Sprintf("BFS over histories Init(cdn on/off)·{Create(path,ip,cred,query|cookie), CDNIndex(path), Kick(k)}* (<=%d operations, <=%d sessions) "+
+	r.Rule = fmt.Sprintf("BFS over histories Init(cdn on/off)·{Create(path,ip,cred,query|cookie), CDNIndex(path, Bearer cdn|Bearer empty), Kick(k)}* (<=%d operations, <=%d sessions) "+
 		"on a fresh real hls.Server per transition; states deduplicated by (cdn configured, sorted live session records path@ip, CDN sessions, kicked sessions); "+
 		"in every distinct state the full product target x file x secret x placement x X-Forwarded-For x Authorization is requested over TCP; "+
-		"distinct = state keys plus (state-independent) request outcome classes served-by/<file kind>", *depth, *maxSess)
+		"distinct = state keys plus request outcome classes (file kind | relation of the presented secret to the sessions and to the client IP | placement | Authorization kind | cdn configured | served or status)", *depth, *maxSess)
 
 	// determinism discipline
 	ph := []op{{Kind: opInit}, {Kind: opCreate, Path: 0, IP: 0, Cred: 0, Mode: 0}, {Kind: opCDN, Path: 1}, {Kind: opKick, K: 0}}
@@ -840,9 +922,11 @@ func main() {
 	var mu sync.Mutex
 	states, transitions, requests := 0, 0, 0
 	served := map[string]int{}
+	reqClasses := map[string]bool{}
 	refused, denied401, authDeny := 0, 0, 0
 	anomalies := map[string]int{}
 	exhausted := true
+	abort := false // a state whose records contradict the model was met: report and stop
 
 	liveOf := func(h []op) []bool {
 		var live []bool
@@ -890,15 +974,22 @@ func main() {
 			authDeny += res.stats.authDeny
 			for k, v := range res.stats.served {
 				served[k] += v
-				r.Distinct("served " + k)
+			}
+			for k := range res.stats.classes {
+				r.Distinct("R " + k)
+				reqClasses[k] = true
 			}
 			for _, f := range res.findings {
 				r.Violation(f.key, fmt.Sprintf("after %v: %s", histString(sts[i].hist), f.what),
 					map[string]any{"history": histString(sts[i].hist), "request": f.req})
 			}
 			if len(sts[i].hist) >= 3 {
+				ns := 0
+				for _, v := range res.stats.served {
+					ns += v
+				}
 				r.Sample(map[string]any{"history": histString(sts[i].hist), "state": res.key,
-					"requests": res.stats.requests, "served": res.stats.served, "refused": res.stats.refused})
+					"requests": res.stats.requests, "served": ns, "refused": res.stats.refused})
 			}
 		}
 	}
@@ -921,6 +1012,14 @@ func main() {
 			execs++
 			transitions++
 			r.Eval(1)
+			if res.deviated {
+				abort = true
+				for _, f := range res.findings {
+					r.Violation(f.key, fmt.Sprintf("after %v: %s", histString(jobs[i]), f.what),
+						map[string]any{"history": histString(jobs[i]), "request": f.req})
+				}
+				continue
+			}
 			mu.Lock()
 			for _, a := range res.anomaly {
 				anomalies[a]++
@@ -961,6 +1060,11 @@ func main() {
 		}
 		fmt.Fprintf(os.Stderr, "[c43] depth %d: frontier %d states, %d transitions (%.1fs)\n", d, len(frontier), len(jobs), time.Since(t0).Seconds())
 		frontier = expand(jobs)
+		if abort {
+			exhausted = false
+			r.Note("stopped at depth %d: the server's session records contradict the model (see violations)", d)
+			break
+		}
 		fmt.Fprintf(os.Stderr, "[c43] depth %d: %d new states to check (%.1fs)\n", d, len(frontier), time.Since(t0).Seconds())
 		checkStates(frontier)
 		if !exhausted {
@@ -994,6 +1098,7 @@ func main() {
 	r.Set("requests_refused", refused)
 	r.Set("requests_401", denied401)
 	r.Set("served_by_class", served)
+	r.Set("request_outcome_classes", len(reqClasses))
 	r.Set("entitled_but_refused", authDeny)
 	r.Set("bound_completed", completed)
 	r.Exhaustive = exhausted
